@@ -25,15 +25,15 @@ use crate::errors::Result;
 use crate::schema::types::ColumnDescPtr;
 use arrow_array::{
     Array, ArrayRef, BooleanArray, Date64Array, Decimal64Array, Decimal128Array, Decimal256Array,
-    Float32Array, Float64Array, Int8Array, Int16Array, Int32Array, Int64Array, PrimitiveArray,
-    UInt8Array, UInt16Array, builder::PrimitiveDictionaryBuilder, cast::AsArray, downcast_integer,
-    types::*,
+    DictionaryArray, Float32Array, Float64Array, Int8Array, Int16Array, Int32Array, Int64Array,
+    PrimitiveArray, UInt8Array, UInt16Array, builder::PrimitiveDictionaryBuilder, cast::AsArray,
+    downcast_integer, types::*,
 };
 use arrow_array::{
     TimestampMicrosecondArray, TimestampMillisecondArray, TimestampNanosecondArray,
     TimestampSecondArray, UInt32Array, UInt64Array,
 };
-use arrow_buffer::{BooleanBuffer, Buffer, NullBuffer, ScalarBuffer, i256};
+use arrow_buffer::{ArrowNativeType, BooleanBuffer, Buffer, NullBuffer, ScalarBuffer, i256};
 use arrow_schema::{DataType as ArrowType, TimeUnit};
 use std::any::Any;
 use std::sync::Arc;
@@ -427,6 +427,16 @@ macro_rules! pack_dictionary_helper {
             ArrowType::Int64 => pack_dictionary_impl::<$t, Int64Type>($values.as_primitive()),
             ArrowType::Float32 => pack_dictionary_impl::<$t, Float32Type>($values.as_primitive()),
             ArrowType::Float64 => pack_dictionary_impl::<$t, Float64Type>($values.as_primitive()),
+            ArrowType::Boolean => {
+                // the dictionary of a boolean column is [false, true]
+                let keys = $values
+                    .as_boolean()
+                    .iter()
+                    .map(|v| v.map(|v| <$t as ArrowPrimitiveType>::Native::usize_as(v as usize)))
+                    .collect::<PrimitiveArray<$t>>();
+                let values = Arc::new(BooleanArray::from(vec![false, true]));
+                Ok(Arc::new(DictionaryArray::<$t>::try_new(keys, values)?) as ArrayRef)
+            }
             _ => unreachable!("Invalid physical type"),
         }
     };
